@@ -40,10 +40,9 @@ Verdict(q) ==
     \* forces on an excited active state are analytical and need a homogeneous batch
     ELSE IF q.exc = "cis" /\ ~q.homog /\ q.active > 0 THEN Rej("energy", "NotImplementedError")
     \* as coded (late, see KnownLate): from the first MD step on the previous amplitudes are handed back as
-    \* starting guess; the heterogeneous-batch CIS solver refuses them (NotImplementedError) and rpa() fails
-    \* on the stacked (X,Y) amplitudes with an internal shape error - after the t = 0 results were produced
+    \* starting guess; the heterogeneous-batch CIS solver refuses them (NotImplementedError) - after the
+    \* t = 0 results were produced
     ELSE IF q.com # "nomd" /\ q.exc = "cis" /\ ~q.homog THEN Rej("md_step", "NotImplementedError")
-    ELSE IF q.com # "nomd" /\ q.exc = "rpa" THEN Rej("md_step", "RuntimeError")
     ELSE Accept
 
 \* the preconditions the property lists as documented
@@ -65,10 +64,10 @@ Spec == Init /\ [][Next]_r
 DocumentedRejected == DocViolated(r) => Verdict(r).verdict = "reject"
 \* ... before any result is produced: every rejecting stage precedes publication on the molecule
 \* (rows in KnownLate are rejected only at the first MD step: recorded in known_findings.json)
-KnownLate(q) == q.com # "nomd" /\ ((q.exc = "cis" /\ ~q.homog) \/ q.exc = "rpa")
+KnownLate(q) == q.com # "nomd" /\ q.exc = "cis" /\ ~q.homog
 EarlyEnough == (Verdict(r).verdict = "reject" /\ ~KnownLate(r)) => StageNo(Verdict(r).stage) < StageNo("accept")
 \* rejections only for a reason: an accepted-by-the-documentation request is rejected only for an
 \* implemented-but-undocumented limitation (listed here so that a new one shows up as a diff)
-Undocumented(q) == (q.exc # "none" /\ ~q.nstates) \/ q.exc = "bogus" \/ (q.com # "nomd" /\ q.exc = "rpa")
+Undocumented(q) == (q.exc # "none" /\ ~q.nstates) \/ q.exc = "bogus"
 NoSpuriousReject == Verdict(r).verdict = "reject" => DocViolated(r) \/ Undocumented(r)
 =============================================================================
